@@ -198,16 +198,18 @@ impl<D: DictionaryAccess> DictBuilder<D> {
     /// Read the connection matrix from either a file or an in-memory buffer
     pub fn read_conn<'a, T: AsDataSource<'a> + 'a>(&mut self, data: T) -> SudachiResult<()> {
         let report = ReportBuilder::new(data.name()).read();
-        match data.convert() {
+        let status = match data.convert() {
             DataSource::File(p) => self.conn.read_file(p),
             DataSource::Data(d) => self.conn.read(d),
-        }?;
+        };
         // a user dictionary is connected through the matrix of its system dictionary:
         // the sizes installed by new_user stay in force
         if !self.user {
+            // also when reading failed: the matrix buffer can already have its new size
             self.lexicon
                 .set_max_conn_sizes(self.conn.left(), self.conn.right());
         }
+        status?;
         self.reporter.collect(
             self.conn.left() as usize * self.conn.right() as usize,
             report,
